@@ -1142,6 +1142,23 @@ func (im *impl) oracle(step int, all *Dump) []OracleFail {
 						shape = "missing:terminating-wildcard-non-typical-name"
 					}
 				}
+				// a Destination whose name also has instances, none of them a typical non-native one: the
+				// service-defaults write asks for kind "service" (an instance exists) and the terminating
+				// wildcard then wants a non-connect instance, so no row is written; the gateway-entry write
+				// would write it (destination loop)
+				// (and the row stays missing when the instances go later: attributed only to names recorded as
+				// having been a Destination WITH instances)
+				if strings.HasPrefix(w, "terminating-gateway|true|") && destConf(d, svc) {
+					typicalNonNative := false
+					for i := range d.Services {
+						if r := &d.Services[i]; r.Name == svc && r.Kind == "" && !r.Native {
+							typicalNonNative = true
+						}
+					}
+					if !typicalNonNative {
+						shape = "missing:wildcard-row-of-destination-with-instances"
+					}
+				}
 			case !hasW && hasG:
 				switch {
 				case g == "ingress-gateway|true|-" && destConf(d, svc) && !connect:
@@ -1565,7 +1582,10 @@ func (t *tracker) observe(before, after *Dump) {
 			t.flags["non-typical-instance-named-like-destination"] = true
 		}
 	}
-	for _, g := range after.GWS {
+	// the rows present BEFORE this command: a wanted row that is missing now although it was there a moment
+	// ago was deleted by this command, not "never written"
+	t.seenGW = map[string]bool{}
+	for _, g := range before.GWS {
 		t.seenGW[fmt.Sprintf("%s|%s|%d", g.Gateway, g.Service, g.Port)] = true
 	}
 	// a service associated with gateways by more than one row (two gateways, or two listeners)
@@ -1780,13 +1800,17 @@ func (t *tracker) observeCmd(c *Cmd, before *Dump) {
 		if c.CheckID == "" || c.SvcID != "" {
 			remove(c.Node, c.SvcID)
 		}
-	case "conf_set", "conf_delete":
-		// the rows of a gateway are rebuilt when its entry is written: forget what was seen before
-		if c.Conf != nil && (c.Conf.Kind == structs.TerminatingGateway || c.Conf.Kind == structs.IngressGateway) {
-			for k := range t.seenGW {
-				if strings.HasPrefix(k, c.Conf.Name+"|") {
-					delete(t.seenGW, k)
-				}
+	}
+}
+
+// forgetGateway (after observe): the rows of a gateway are rebuilt when its entry is written, so a row missing
+// after such a write was not written by it
+func (t *tracker) forgetGateway(c *Cmd) {
+	if (c.Kind == "conf_set" || c.Kind == "conf_delete") && c.Conf != nil &&
+		(c.Conf.Kind == structs.TerminatingGateway || c.Conf.Kind == structs.IngressGateway) {
+		for k := range t.seenGW {
+			if strings.HasPrefix(k, c.Conf.Name+"|") {
+				delete(t.seenGW, k)
 			}
 		}
 	}
@@ -1802,14 +1826,8 @@ func sortedCopy(xs []string) []string {
 func (t *tracker) cause(f *OracleFail) string {
 	switch f.Kind {
 	case "kindnames":
-		if f.Sub == "destination-extra" && len(f.Rows) > 0 {
-			for _, r := range f.Rows {
-				if !t.droppedDest[strings.TrimPrefix(r, "destination|")] {
-					return ""
-				}
-			}
-			return "destination-dropped-by-update"
-		}
+		// no excluded class for the (destination, name) rows any more: since /repo 0d0f3e6 an update that
+		// drops the Destination cleans them up like a delete
 		// a name shared by instances of several kinds is fine by itself (since /repo 0bb54ea).  An unjustified
 		// row is attributed only if it is a pair of the OLD definition of an instance redefined in place.
 		if f.Sub == "extra" && len(f.Rows) > 0 {
@@ -1898,7 +1916,7 @@ func (t *tracker) cause(f *OracleFail) string {
 			return "wildcard-order"
 		case "extra:ingress-wildcard-destination", "extra:terminating-wildcard-non-typical-name":
 			return "wildcard-order"
-		case "differ:kind-of-destination-with-instances":
+		case "differ:kind-of-destination-with-instances", "missing:wildcard-row-of-destination-with-instances":
 			// only rows of names that were a destination and registered AT THE SAME TIME somewhere in the history
 			for _, r := range f.Rows {
 				if !t.destWithInst[strings.Split(r, "|")[1]] {
@@ -1919,11 +1937,10 @@ func (t *tracker) cause(f *OracleFail) string {
 				switch {
 				case t.oldNames[n]:
 					c = "instance-redefined"
-				case t.imported[n]:
-					c = "imported-instance"
-				case t.droppedDest[n]:
-					c = "destination-dropped-by-update"
 				}
+				// since /repo 737750a (imported connect instances stay out of gateway-services) and 0d0f3e6 (a
+				// Destination dropped by an update is cleaned up) those two explanations are gone: such rows are
+				// violations again
 				if c == "" {
 					return ""
 				}
@@ -1933,14 +1950,7 @@ func (t *tracker) cause(f *OracleFail) string {
 			}
 			return cause
 		case "differ:stale-destination-kind":
-			for _, r := range f.Rows {
-				if !t.droppedDest[strings.Split(r, "|")[1]] {
-					return ""
-				}
-			}
-			if len(f.Rows) > 0 {
-				return "destination-dropped-by-update"
-			}
+			return "" // repaired by /repo 0d0f3e6
 		}
 	}
 	return ""
@@ -2409,6 +2419,7 @@ func runScript(id int, mix string, script []Cmd, g *gen, n int) History {
 		}
 		tr.observe(localView(&before), localView(&after))
 		tr.observeImported(&before, &after)
+		tr.forgetGateway(&c)
 		for _, f := range im.oracle(i, &after) {
 			f.Cause = tr.cause(&f)
 			h.Oracle = append(h.Oracle, f)
